@@ -362,7 +362,7 @@ pub fn mutate(b: &[u8], r: &mut Rng) -> Vec<u8> {
 /// optionally the matching closers).
 pub fn pathological(kind: u64, n: usize) -> Vec<u8> {
     let rep = |s: &str, n: usize| s.repeat(n).into_bytes();
-    match kind % 14 {
+    match kind % 27 {
         0 => rep("(", n),
         1 => rep("[", n),
         2 => rep("#(", n),
@@ -376,6 +376,21 @@ pub fn pathological(kind: u64, n: usize) -> Vec<u8> {
         10 => { let mut v = rep("'", n); v.extend(b"x"); v }
         11 => { let mut v = rep("#(", n); v.extend(rep(")", n)); v }
         12 => { let mut v = rep("(a . ", n); v.extend(b"b"); v.extend(rep(")", n)); v }
-        _ => { let mut v = rep("[(", n); v.extend(rep(")]", n)); v }
+        13 => { let mut v = rep("[(", n); v.extend(rep(")]", n)); v }
+        // one token with n repetitions of a prefix the lexer handles itself (no nesting
+        // budget is involved there: it must simply not recurse)
+        14 => { let mut v = b"?".to_vec(); v.extend(rep("\\^", n)); v.extend(b"a"); v }
+        15 => { let mut v = b"?".to_vec(); v.extend(rep("\\C-", n)); v.extend(b"a"); v }
+        16 => { let mut v = b"?".to_vec(); v.extend(rep("\\M-", n)); v.extend(b"a"); v }
+        17 => { let mut v = b"\"".to_vec(); v.extend(rep("\\^", n)); v.extend(b"a\""); v }
+        18 => { let mut v = b"#\\x".to_vec(); v.extend(rep("1", n)); v }
+        19 => rep("#", n),
+        20 => rep("7", n),
+        21 => { let mut v = b"1e".to_vec(); v.extend(rep("9", n)); v }
+        22 => { let mut v = b"\"".to_vec(); v.extend(rep("\\\\", n)); v.extend(b"\""); v }
+        23 => { let mut v = rep(";", n); v.extend(b"\n1"); v }
+        24 => { let mut v = b"(a".to_vec(); v.extend(rep(" .", n)); v }
+        25 => { let mut v = b"\"".to_vec(); v.extend(rep("\\x41;", n)); v.extend(b"\""); v }
+        _ => { let mut v = b"#:".to_vec(); v.extend(rep(":", n)); v }
     }
 }
